@@ -21,19 +21,19 @@ Definition r_opss : list (list op) :=
   [[OFind (1, 5)]; [OInsert (1, 5) [10; 11]; OInsert (1, 5) [20; 21]]].
 
 (* writer stores; reader locks, finds its slot, UNLOCKS, copies one word;
-   writer locks and is about to overwrite the slot: race; it overwrites;
+   writer locks, writes the key and is about to overwrite the value: race; it overwrites;
    reader copies the rest *)
 Definition r_sched : list tid :=
-  map N.to_nat [1;1;1;1; 0;0;0;0; 0; 1;1; 1;1; 0;0;0].
+  map N.to_nat [1;1;1;1;1;1; 0;0;0;0; 0; 1;1;1; 1;1;1; 0;0;0].
 
 Theorem C15_find_race_refuted :
   (* the static check rejects the pinned protocol ... *)
   proto_ok pinned_protos = false /\
   (* ... a reachable state has two threads with conflicting next accesses ... *)
-  race (run (firstn 11 r_sched) (init (map (program pinned_protos 2) r_opss))) 0%nat 1%nat = true /\
+  race (run (firstn 14 r_sched) (init (map (program pinned_protos 2) r_opss))) 0%nat 1%nat = true /\
   (* ... and the find completes with a value nobody stored *)
   all_results (run r_sched (init (map (program pinned_protos 2) r_opss))) = [[((1, 5), [10; 21])]; []] /\
-  ~ In ((1, 5), [10; 21]) (ins_of (concat (map (program pinned_protos 2) r_opss))).
+  ~ In ((1, 5), [10; 21]) (flat_map ins_of (map (program pinned_protos 2) r_opss)).
 Proof.
   split; [reflexivity|split; [vm_compute; reflexivity|split; [vm_compute; reflexivity|]]].
   vm_compute. intros [H|[H|[]]]; discriminate.
